@@ -135,6 +135,13 @@ class FilterStore(Store[T]):
         """Get an item out of the store that satisfies ``filter``"""
         return FilterStoreGet(self, filter)
 
+    def _trigger_get(self, put_event):
+        # Every request has its own filter: a request that cannot be served
+        # must not block the requests queued behind it.
+        served = [event for event in self.get_queue if self._do_get(event)]
+        for event in served:
+            self.get_queue.remove(event)
+
     def _do_get(self, event: FilterStoreGet):
         event_filter = event.filter
         try:
